@@ -362,7 +362,7 @@ func evalGFPoly(c *core.Ctx, cs *core.Case) {
 func rsData(kind string, f fieldSpec, n int) []int {
 	maxLen := f.size - 1 - n
 	if maxLen < 1 {
-		maxLen = 1
+		maxLen = 3 // more check symbols than the field has non-zero elements: no code any more, still defined algebra
 	}
 	mk := func(l int, g func(i int) int) []int {
 		if l > maxLen {
@@ -627,6 +627,24 @@ func c17Body(c *core.Ctx) {
 				}
 			}
 		}
+	}
+	// 3b. every check-symbol count 1..min(600, q-1) on a fresh encoder, for every field, up to and
+	// including the count that uses every non-zero element as a root (generator x^(q-1)+1: zero
+	// coefficients). Beyond q-1 the "consecutive powers" repeat and there is no Reed-Solomon code to
+	// speak of (the library's antilog table ends there too): outside the property's domain.
+	for _, f := range fields {
+		P := []int{f.pp, f.size, f.base}
+		for n := 1; n <= 600 && n <= f.size-1; n++ {
+			if !c.Thorough() && n > 70 && n < f.size-3 && n%16 != 0 {
+				continue // quick: every count to 70, every 16th beyond, and the last three of the field
+			}
+			Run(c, &core.Case{Fam: "rs", P: P, Ops: []string{fmt.Sprintf("%d:count", n)}})
+			Run(c, &core.Case{Fam: "rs", P: P, Ops: []string{fmt.Sprintf("%d:hi", n)}})
+			if n%50 == 0 || n >= f.size-2 {
+				Run(c, &core.Case{Fam: "rs", P: P, Ops: []string{fmt.Sprintf("%d:one", n), fmt.Sprintf("%d:max", n-1), fmt.Sprintf("%d:lead0", n)}})
+			}
+		}
+		c.R.Bound(fmt.Sprintf("rscounts.%#x/%d", f.pp, f.size), "every check-symbol count 1..min(600, q-1) on a fresh encoder x 2 data kinds (quick: every count to 70, every 16th beyond, q-3..q-1)")
 	}
 	// 4. data sweeps: every 3-symbol data vector (small fields) / a 2-symbol-exhaustive slice (large
 	// fields): check symbols that start with zeros, cancel, or equal the data are all in here
